@@ -356,9 +356,58 @@ fn check_sig(inputs: &[SigT], variadic: &Option<SigT>, args: &[Rcvar]) -> Result
     Ok(())
 }
 
-/// Mini reference semantics of the few built-ins the generator calls.
+/// The built-in function object itself, constructed directly (no registry involved).
+fn builtin_object(name: &str) -> Option<Box<dyn Function>> {
+    use jmespath::functions::*;
+    Some(match name {
+        "abs" => Box::new(AbsFn::new()),
+        "avg" => Box::new(AvgFn::new()),
+        "ceil" => Box::new(CeilFn::new()),
+        "contains" => Box::new(ContainsFn::new()),
+        "ends_with" => Box::new(EndsWithFn::new()),
+        "floor" => Box::new(FloorFn::new()),
+        "join" => Box::new(JoinFn::new()),
+        "keys" => Box::new(KeysFn::new()),
+        "length" => Box::new(LengthFn::new()),
+        "map" => Box::new(MapFn::new()),
+        "min" => Box::new(MinFn::new()),
+        "max" => Box::new(MaxFn::new()),
+        "max_by" => Box::new(MaxByFn::new()),
+        "min_by" => Box::new(MinByFn::new()),
+        "merge" => Box::new(MergeFn::new()),
+        "not_null" => Box::new(NotNullFn::new()),
+        "reverse" => Box::new(ReverseFn::new()),
+        "sort" => Box::new(SortFn::new()),
+        "sort_by" => Box::new(SortByFn::new()),
+        "starts_with" => Box::new(StartsWithFn::new()),
+        "sum" => Box::new(SumFn::new()),
+        "to_array" => Box::new(ToArrayFn::new()),
+        "to_number" => Box::new(ToNumberFn::new()),
+        "to_string" => Box::new(ToStringFn::new()),
+        "type" => Box::new(TypeFn::new()),
+        "values" => Box::new(ValuesFn::new()),
+        _ => return None,
+    })
+}
+
+/// What a built-in computes is not C15's business (that is C02/C06): when the
+/// registry history says a name is bound to a built-in, the expected answer is
+/// whatever that built-in's own function object, constructed directly, gives
+/// for the same argument vector.  Only `map`, which calls back into the
+/// interpreter (and so into the registry) through its expression reference,
+/// keeps a small reference semantics of its own.
 fn model_builtin(name: &str, args: &[Rcvar], m: &mut ModelRt, log: &mut Vec<Rec>) -> Result<Rcvar, ErrClass> {
     use SigT::*;
+    if name != "map" {
+        let f = builtin_object(name).ok_or_else(|| ErrClass::Unsupported(format!("builtin {}", name)))?;
+        let empty = Runtime::new();
+        let mut ctx = Context::new("model", &empty);
+        return match catch_unwind(AssertUnwindSafe(|| f.evaluate(args, &mut ctx))) {
+            Ok(Ok(v)) => Ok(v),
+            Ok(Err(e)) => Err(class_of(&e)),
+            Err(_) => Err(ErrClass::Unsupported("builtin panicked".into())),
+        };
+    }
     match name {
         "abs" => {
             check_sig(&[Number], &None, args)?;
@@ -561,7 +610,6 @@ const DOCS: &[&str] = &[
     r#"{"a": -7.5, "b": [1, 2], "xs": [], "ys": ["s", 1], "o": {}, "e": null}"#,
     r#"{"a": "str", "b": null, "xs": [{"k": "t", "n": 2}], "ys": [], "o": {"z": [1]}}"#,
     r#"[1, 2, 3]"#,
-    r#"null"#,
 ];
 
 fn gen_arg(r: &mut Rng, depth: u32, names: &[&str]) -> String {
@@ -804,23 +852,18 @@ fn identify(f: &dyn Function, rt: &Runtime, log: &Log, expect_sig: Option<&Sig>)
     }
 }
 
-/// What the model says `identify` should report for a binding.
+/// What the model says `identify` should report for a binding: a recording
+/// function names itself; a built-in is recognised by answering the probe exactly
+/// as its own, directly constructed, function object does.
 fn model_identity(b: &Binding) -> String {
     match b {
         Binding::Custom { spec, .. } => format!("F{}", spec.id),
         Binding::Builtin(name) => {
-            // known answers of built-ins on the probe argument -3
-            match *name {
-                "abs" => "builtin:3.0".into(),
-                "ceil" | "floor" => "builtin:-3.0".into(),
-                "not_null" | "to_number" => "builtin:-3".into(),
-                "to_array" => "builtin:[-3]".into(),
-                "to_string" => "builtin:\"-3\"".into(),
-                "type" => "builtin:\"number\"".into(),
-                "avg" | "keys" | "length" | "max" | "min" | "merge" | "reverse" | "sort" | "sum" | "values" => {
-                    "builtin-err:InvalidType".into()
-                }
-                _ => "builtin-err:NotEnough".into(),
+            let empty = Runtime::new();
+            let dummy: Log = Arc::new(Mutex::new(Vec::new()));
+            match builtin_object(name) {
+                Some(f) => identify(f.as_ref(), &empty, &dummy, None),
+                None => "unknown-builtin".into(),
             }
         }
     }
